@@ -10,15 +10,15 @@ CLAIMS = {
  "C01": (TV, "correspondence Go vs extracted Coq model + outcome oracle",
          "Outcome class (returns / panics / hangs) of IsSQLi compared with the Coq model, in which every index and slice is a checked primitive, over corpus, bounded-exhaustive, truncation, fragment, mutation and 64 KB-1 MB repetition streams; the totality theorem over the model is not finished, so this is claimed at the level of the tie.",
          "model hand-written, tied by correspondence; no theorem yet for all inputs"),
- "C02": (TV, "correspondence Go vs extracted Coq model + outcome oracle (child process)",
-         "Outcome class of IsXSS and of each of the five contexts compared with the Coq model (call-depth budget 8, token fuel 2|s|+4); the Go side runs in watched child processes so a fatal stack overflow or a hang is attributed to one input.",
-         "totality theorem over the model not finished"),
+ "C02": (PROOF, "Coq theorem: is_xss total with constant call depth and linear fuel; + outcome correspondence (child processes)",
+         "C02_is_xss_total: for every byte string the model's IsXSS returns Ok in all five contexts: no checked index/slice fails, every loop finishes within its fuel (tokens: 2|s|+4, state loops: |s|+2) and the call depth between HTML5 state functions never exceeds 4 (budget 8), for every input; proved by a per-state specification of all 22 state functions with a potential (|s|-pos)+credit(state) that every emitted token decreases, plus totality of the classifier, the character-reference decoder and the scheme matcher. Tied to the code by the outcome-class correspondence (Go side in watched child processes so a fatal stack overflow or a hang is attributed to one input) and the token-stream correspondence.",
+         "model hand-written, tied by correspondence; Go runtime stack growth itself is observed, not modelled"),
  "C03": (PROOF, "Coq vm_compute over the frozen grammar (sharded) + replay on IsSQLi",
          "C03_core: every (prefix, template, tail) triple of the frozen attack grammar (19 215 triples) under each of the 9 uniform separators is reported by the model, decided in the Coq kernel by vm_compute against the tables regenerated from the source; the same enumeration and 20 000 (thorough 500 000) derivations beyond the bound (mixed separators, whitespace runs, letter case) are replayed on IsSQLi. The lifting of the infinite dimensions is not proved (core only).",
          "finite core proved, infinite dimensions sampled; grammar calibrated once on the repaired tree and frozen in grammar/sqli_grammar.txt"),
- "C04": (TV, "enumeration of the vector grammar from the shipped lists on IsXSS + model correspondence",
-         "Every black tag x terminator, every event name x value quoting, every URL attribute x scheme x quoting, style/filter/black/indirect attributes and DOCTYPE/ENTITY/import/xml/IE-conditional markup, each behind the break-out prefix of each of the five contexts (9 449 vectors), plus obfuscations beyond; verdicts compared with the model.",
-         "Coq core over the regenerated lists not yet stated"),
+ "C04": (PROOF, "Coq vm_compute over the vector grammar built from the regenerated lists (sharded) + replay on IsXSS",
+         "C04_core: every member of the vector grammar (9 450 vectors: every shipped black tag x 4 terminators, SVT/XSL, every event x 5 value quotings, 7 attribute separators, every URL attribute x 4 schemes x 3 quotings, black/style/indirect attributes, XMLNS/XLINK, 10 markup forms; each behind the break-out prefix of each of the five contexts) is reported by the model, decided in the Coq kernel by vm_compute over the lists regenerated from the source; the Coq family is byte-identical to the family the harness replays on IsXSS (checked: `harness emit-grammar` == Eval of xss_core). Infinite dimensions (letter case, NULs in names, encodings) are sampled (20 000 obfuscations per run), not proved here; C19 proves the encoding dimension of the URL schemes.",
+         "finite core proved, infinite dimensions sampled; a dropped list entry shrinks the family and is caught by the C20 baseline theorem"),
  "C05": (PROOF, "Coq theorem over generated effect summary + interleaving theorem; -race histories",
          "Partial by nature: proved are (1) the generated fact that no package-level variable is written, address-taken or handed to an external pointer method after initialisation and that the package uses no go/chan/sync/unsafe/reflect (gen/Effects.v, regenerated from the type-checked source on every run) and (2) the interleaving theorem: threads that share only immutable data return, under every schedule, what the pure function returns. Observed, not proved: the Go memory model and runtime (race-detector runs of 16-64 goroutines over shared inputs, permuted histories compared with a reference pass and with the pure model).",
          "runtime behaviour (data races of the compiled binary) cannot be exhibited by any executable Gallina model"),
@@ -40,12 +40,16 @@ CLAIMS = {
  "C13": (PROOF, "Coq theorem (a) + embed / prefix oracles",
          "(a) IsXSS = OR of the five context verdicts is proved for the model (C13a_or_of_contexts). (b) attribute context = embedding in a harmless tag and (c) '<'-free prefixes are irrelevant are checked on the implementation (4 embeds, 3 prefixes per input) and are not yet theorems.",
          "(b),(c) tested only"),
- "C14": (TV, "benign family sampled on IsSQLi + correspondence", "Words/numbers family derived from the running keyword table, class sequences up to 7 items, e-mail / decimal / sentence shapes.", "theorem pending"),
+ "C14": (PROOF, "Coq theorem: Benign s -> is_sqli s = Ok (false, []) for all s; family computed from the regenerated table; + sampling on IsSQLi",
+         "C14_benign_never_sqli: every input that is a single-space join of unsigned integers and identifiers [A-Za-z_][A-Za-z0-9_]* whose upper case is neither a non-fingerprint key of the keyword table nor a space-separated component of one (a boolean computed from the table regenerated from the source) is reported (false, \"\") by the model: exact lexing lemma (each item is one token n or 1), no folding rule fires on an {n,1} stream and merge finds no pair, no {n,1} string of length 1-5 is blacklisted (sweep), only the first pass runs. No length bound on items or input. The harness samples the same family (plus the e-mail / decimal / sentence shapes of the second clause, which are tests) on IsSQLi and compares with the model.",
+         "second clause (e-mail, decimal, sentence shapes) tested only; model hand-written, tied by correspondence"),
  "C15": (TV, "exhaustive short strings without '<' '=' + correspondence", "All strings to depth 3 (thorough 4) over the HTML alphabet minus the two bytes and the html streams with the two bytes removed.", "theorem pending"),
  "C16": (PROOF, "Coq theorem over the tokenizer model (all 22 lexers) + token record oracle + correspondence",
          "C16_tokens_faithful_ordered_progress: for every byte string and every flag value the model's scan returns (no panic, no fuel exhaustion), the records tile the input from 0, every step consumes at least one byte, each token lies inside its step, its value is exactly the input slice at its offset (length <= 31), its class is a documented class character, and the scan ends at |input|; proved by induction over the tokenizer loop from a per-lexer specification of all 22 lexers plus parseStringCore, with byte sweeps over the regenerated dispatch table and keyword map. The model is tied to the code by the full-width token-record correspondence (six modes) and the same clauses are evaluated directly on the implementation's records.",
          "model hand-written, tied by correspondence"),
- "C17": (TV, "bounds/order oracle + first-terminator oracle + correspondence", "Bounds, order and count in five contexts; each body placed behind 10 construct openers and compared with an independent first-terminator search, including resumption after the terminator.", "theorem pending"),
+ "C17": (PROOF, "Coq theorems: token bounds/order/count for all inputs and contexts; every construct = first-terminator oracle; + oracles on the implementation + correspondence",
+         "C17a: for every input and each of the five contexts the model's token run returns, every token lies inside the input, consecutive tokens do not overlap and are in order, and there are at most |s|+1 tokens (sharp). C17b: for each delimited construct (<% %>, CDATA, <!-- --> with NULs after the first dash and -!> , <! >, <? >, doctype, the three quoted values both at offset 0 and inside a tag) one step from the construct's state emits exactly the bytes up to the first terminator given by a declarative oracle (first_match / comment_end, with iff characterisations: a terminator there and none earlier), resumes right after it in the data state (quoted values: after-attribute-value state), or runs to end of input and stops; plus the dispatch after <! . Tied to the code by the token-stream correspondence in five contexts and Go-side oracles with decoy terminators.",
+         "model hand-written, tied by correspondence"),
  "C18": (PROOF, "Coq theorems: every literal form = declarative first-real-terminator oracle; + oracle on the implementation + correspondence",
          "Spec/StringSpec.v defines the oracle structurally (find_close: first delimiter not preceded by an odd backslash run counted inside the literal and not doubled; first_match: first occurrence of a byte sequence). Properties/C18.v proves, as equations `model call = Ok (oracle value)` for all inputs: parseStringCore's loop and result (token offset, clipped length, value, open/close marks, resume offset, unterminated case) for every delimiter other than backslash; strings.Index = first_match; and the callers: real quote, virtual quote of a quoted context, back-tick, @'..', e'..'/n'..', u&'..', q'X..Y' and nq'X..Y' for every delimiter byte >= 33 including 0x80-0xFF, $$..$$ and $tag$..$tag$. The model is tied to the code by the token-record correspondence and the same oracle evaluated in Go on the implementation's tokens (all 223 q-delimiters, decoy terminators, tail duplication).",
          "not stated: @@'..' / @`..` (same code path), fall-backs to parseWord when an opener is not recognised; model hand-written, tied by correspondence"),
